@@ -127,19 +127,16 @@ theorem releaseEntry_bound {s s' : State} {k : Nat} {r : WaitResult} (hinv : GIn
     have hg0 : GInv { s with sync := upd s.sync k none } [] := GInv.congr (s := s) rfl rfl rfl hinv
     exact (release_gstep hg0 h).bound
 
-theorem releaseSelf_bound {s s' : State} {k : Nat} (hinv : GInv s [])
-    (h : releaseSelf s k = some s') : s'.bound = s.bound := by
-  unfold releaseSelf at h
+theorem releaseSelf_bound {s s' : State} {t k : Nat} (hinv : GInv s [])
+    (h : releaseSelf s t k = some s') : s'.bound = s.bound := by
   cases hk : s.sync k with
-  | none => simp [hk] at h
+  | none => simp [releaseSelf, hk] at h
   | some st =>
-    simp only [hk] at h
     cases hct : st.claimedTwice with
-    | true =>
-      simp only [hct, if_true] at h
-      exact (handback_frame h).2.2
+    | true => exact (handback_frame hk hct h).2.2
     | false =>
-      simp only [hct, Bool.false_eq_true, if_false] at h
+      unfold releaseSelf at h
+      simp only [hk, hct, Bool.false_eq_true, if_false] at h
       have hg0 : GInv { s with sync := upd s.sync k none } [] := GInv.congr (s := s) rfl rfl rfl hinv
       exact (release_gstep hg0 h).bound
 
